@@ -1,0 +1,8 @@
+//go:build !verif
+
+package lexer
+
+// Verification hooks (build tag "verif") are compiled out.
+const verifEnabled = false
+
+func verifGate(point, key string) {}
